@@ -172,6 +172,8 @@ def run(tier, seed):
                sfc_models.external.ExchangeRates.GetCrossRate, sfc_models.external.ExternalSector.RegisterCurrency,
                sfc_models.external.InternationalGold.SetGoldPurchases,
                sfc_models.models.Model._GenerateRegisteredCashFlows, sfc_models.sector.Market._GenerateMultiSupply)
+    from vf import zoolib
+    zoolib.XCHECK_EVERY[0] = 16 if tier == 'quick' else 3
     plans = crossers(tier)
     chk.bounds = {'topologies': len(plans), 'currencies': '2 (quick) / 2-3 (thorough)',
                   'periods': 'any one period (equations of period b with a model-consistent predecessor a)',
